@@ -728,3 +728,45 @@ def lossy_key_orders(facts):
             seen.add((o[0], o[1]))
             uniq.append(o)
     return uniq
+
+
+def as_record_init(facts, e):
+    """A record construction as an aggregate initialiser: `R{.a = x, .b = y}` as it is, `R(x, y)` when the constructor of the repository that
+    is called stores each parameter unchanged into a field (member initialisers `a(a), b(b)` or `this->a = a` in the body): a copy of the
+    node with k == 'init' and fields [[field, argument], ..]; None otherwise."""
+    e0 = strip_copies(strip_casts(e)) if e is not None else None
+    if e0 is None:
+        return None
+    if e0.get('k') == 'init':
+        return e0
+    if e0.get('k') != 'construct' or not e0.get('ctor_in_repo', True) or not e0.get('args'):
+        return None
+    rec = (e0.get('rec') or '')
+    cands = [f for f in facts.functions if f.get('kind') == 'ctor' and f.get('body') is not None and f['tmpl'] in ('none', 'inst') and
+             f['q'].rsplit('::', 1)[0].split('::')[-1] == rec.split('::')[-1] and len(f.get('params', [])) == len(e0['args'])]
+    if e0.get('ctor'):
+        c2 = [f for f in cands if f.get('sig') == e0['ctor']]
+        cands = c2 or cands
+    if len(cands) != 1:
+        return None
+    ct = cands[0]
+    pidx = {p['d']: i for i, p in enumerate(ct['params'])}
+    fields = []
+    for ci in ct.get('ctor_inits') or []:
+        v = strip_copies(strip_casts(ci.get('init'))) if ci.get('init') is not None else None
+        while v is not None and v.get('k') == 'call' and (v.get('callee') or '') in ('std::move', 'std::forward') and v.get('args'):
+            v = strip_copies(strip_casts(v['args'][0]))
+        if ci.get('field') and v is not None and v.get('k') == 'ref' and v.get('d') in pidx:
+            fields.append([ci['field'], e0['args'][pidx[v['d']]]])
+    for x in walk_all_exprs(ct['body']):
+        if x.get('k') == 'assign' or (x.get('k') == 'call' and (x.get('callee') or '').endswith('::operator=') and x.get('obj') is not None):
+            t = strip_casts(x.get('l') or x.get('obj'))
+            v = strip_copies(strip_casts(x.get('r') if x.get('k') == 'assign' else (x.get('args') or [None])[0]))
+            if t is not None and t.get('k') == 'member' and v is not None and v.get('k') == 'ref' and v.get('d') in pidx:
+                fields.append([t['name'], e0['args'][pidx[v['d']]]])
+    if len(fields) != len(e0['args']):
+        return None
+    out = dict(e0)
+    out['k'] = 'init'
+    out['fields'] = fields
+    return out
